@@ -1281,7 +1281,7 @@ scan_manifest(CPPManifest *manifest) {
   imanifest._definition = manifest->expand();
 
   CPPType *type = manifest->determine_type();
-  if (type != nullptr && type->as_function_type() != nullptr) {
+  if (type != nullptr && type->as_closure_type() != nullptr) {
     // The manifest expands to a lambda expression.  There is no value of
     // that type we could hand out, so export it by its definition only.
     type = nullptr;
